@@ -203,6 +203,19 @@ pub fn run(cfg: &Cfg) {
             one(&mut out, &s, true);
         }
     }
+    // many types SIDE BY SIDE: closed containers must not count towards the depth of what follows
+    for n in [30usize, 31, 32, 33, 34, 40, 51] {
+        one(&mut out, &"a{sv}".repeat(n), true);
+        one(&mut out, &format!("({})", "a{yb}".repeat(n)), true);
+        one(&mut out, &"(y)".repeat(n), true);
+        one(&mut out, &"ay".repeat(n), true);
+        for d in [1usize, 12, 13, 31, 32, 33] {
+            if 5 * n + d + 1 <= 255 {
+                one(&mut out, &format!("{}{}y", "a{sv}".repeat(n), "a".repeat(d)), true);
+                one(&mut out, &format!("{}{}y{}", "(y)".repeat(n), "(".repeat(d), ")".repeat(d)), true);
+            }
+        }
+    }
     for len in [253usize, 254, 255, 256, 257] {
         one(&mut out, &"y".repeat(len), true);
         one(&mut out, &format!("{}{}", "(ii)".repeat(len / 4), "y".repeat(len % 4)), true);
@@ -280,7 +293,7 @@ pub fn run(cfg: &Cfg) {
     out.extra("exhaustive_prefix_cases", exhaustive_cases.to_string());
     out.extra("exhaustive_max_len", maxlen.to_string());
     out.finish(
-        "all strings over the 19 type characters up to the length bound (exhaustive), depth families a^n / (^n / a{s^n(^m for n,m in 29..35, 253..257-byte strings, grammar-generated valid signatures with every single-character delete/replace/insert, random strings with foreign characters, every Unicode scalar value alone / as array element / as struct field (exhaustive); through parse_description+to_str, validate_signature, SignatureWrapper::new, SignatureIter; distinct by request, every case counts as non-trivial",
+        "all strings over the 19 type characters up to the length bound (exhaustive), depth families a^n / (^n / a{s^n(^m for n,m in 29..35, 30..51 closed containers side by side followed by nesting up to the limits, 253..257-byte strings, grammar-generated valid signatures with every single-character delete/replace/insert, random strings with foreign characters, every Unicode scalar value alone / as array element / as struct field (exhaustive); through parse_description+to_str, validate_signature, SignatureWrapper::new, SignatureIter; distinct by request, every case counts as non-trivial",
         true,
     );
 }
